@@ -16,7 +16,7 @@ VERIF = Path(__file__).resolve().parents[1]
 
 def one(d):
     meta = json.loads((d / "meta.json").read_text())
-    checks = list(meta.get("checks", {}))
+    checks = os.environ["BENIGN_CHECKS"].split(",") if os.environ.get("BENIGN_CHECKS") else list(meta.get("checks", {}))
     wt = tempfile.mkdtemp(prefix="rebn.", dir="/tmp")
     os.rmdir(wt)
     subprocess.run(f"git -C /repo worktree add -q --detach {wt} HEAD", shell=True, check=True)
